@@ -342,7 +342,7 @@ impl RuleFamily for Names {
         "names-and-structure/duplicate definitions (same and different kinds, one and two files), fields, operations, parameters, return members, enumerators, enumerator fields, inherited operations (single, transitive, diamond), alias of optional, definitions without a module".into()
     }
     fn len(&self) -> u64 {
-        26
+        33
     }
     fn get(&self, idx: u64) -> (Program, String) {
         let mut f = MFile::module("M");
@@ -474,10 +474,46 @@ impl RuleFamily for Names {
                 f.defs.push(st("S", vec![MField::new("S", i32t())]));
                 label = "field named like its struct (legal)";
             }
-            _ => {
+            25 => {
                 f.defs.push(st("a", vec![]));
                 f.defs.push(st("A", vec![]));
                 label = "names differing in case (legal)";
+            }
+            26 | 27 | 28 | 29 => {
+                // inheritance chains of 3..6 links: the redeclared operation comes from the most distant ancestor
+                let links = (idx - 26 + 3) as usize;
+                f.defs.push(iface("L0", vec![], vec![op("o", vec![], MRet::None)]));
+                for k in 1..links {
+                    f.defs.push(iface(&format!("L{k}"), vec![MType::named(&format!("L{}", k - 1))], vec![op(&format!("own{k}"), vec![], MRet::None)]));
+                }
+                f.defs.push(iface("I", vec![MType::named(&format!("L{}", links - 1))], vec![op("o", vec![], MRet::None)]));
+                label = "redeclared operation of a distant ancestor (chain of 3..6 links)";
+            }
+            30 => {
+                // the ancestor is only reachable through the SECOND base, three links up
+                f.defs.push(iface("Far", vec![], vec![op("o", vec![], MRet::None)]));
+                f.defs.push(iface("Mid", vec![MType::named("Far")], vec![]));
+                f.defs.push(iface("Near", vec![MType::named("Mid")], vec![]));
+                f.defs.push(iface("Other", vec![], vec![op("x", vec![], MRet::None)]));
+                f.defs.push(iface("I", vec![MType::named("Other"), MType::named("Near")], vec![op("o", vec![], MRet::None)]));
+                label = "redeclared operation of an ancestor reached through the second base";
+            }
+            31 => {
+                // same shape, but legal: distinct names all the way
+                f.defs.push(iface("Far", vec![], vec![op("o", vec![], MRet::None)]));
+                f.defs.push(iface("Mid", vec![MType::named("Far")], vec![op("m", vec![], MRet::None)]));
+                f.defs.push(iface("Near", vec![MType::named("Mid")], vec![op("n", vec![], MRet::None)]));
+                f.defs.push(iface("I", vec![MType::named("Near")], vec![op("i", vec![], MRet::None)]));
+                label = "deep inheritance chain without redeclaration (legal)";
+            }
+            _ => {
+                // ancestors split over files, declared after their users
+                g.defs.push(iface("Far", vec![], vec![op("o", vec![], MRet::None)]));
+                f.defs.push(iface("I", vec![MType::named("Near")], vec![op("o", vec![], MRet::None)]));
+                f.defs.push(iface("Near", vec![MType::named("Mid")], vec![]));
+                g.defs.push(iface("Mid", vec![MType::named("Far")], vec![]));
+                two = true;
+                label = "redeclared operation of a distant ancestor, chain declared backwards over two files";
             }
         }
         (if two { vec![f, g] } else { vec![f] }, label.to_string())
